@@ -14,6 +14,7 @@
 -/
 import KiraModel.Proofs.EffectsAVolPan
 import KiraModel.Proofs.EffectsAFilter
+import KiraModel.Proofs.SvfStabilityLemmas
 import KiraModel.Proofs.EffectsAEq
 import KiraModel.Proofs.EffectsADist
 import KiraModel.Proofs.EffectsAComp
@@ -607,5 +608,114 @@ example (t r m x : ℝ) (a l : ℕ) :
 example : (0 : ℝ) < 1 / 48000 ∧ (1000 : ℝ) * (1 / 48000) < 1 / 2 := by norm_num
 /-- after a tween has landed the parameter is at rest again (C06), so the laws apply from then on -/
 example (p : Parameter ℝ ℝ) (tgt : ℝ) (hp : Parameter.Landed p tgt) : p.Stagnant := hp.2.1
+
+end K
+
+namespace K
+
+/-! ## filter: stability of the state-variable core (energy argument, parameters at rest)
+
+`svfEnergy v` is the sum of the squares of the four integrator numbers (ic1eq, ic2eq; left, right),
+`frameSq x = x.left² + x.right²`, `svfV1 g k v x` is the band-pass tap `v1` the tick computes.
+`Filter.tickV s dt` is the per-frame transition `process` folds over the input
+(`Filter.process_stagnant`), i.e. `Filter.tick` with the resting parameter values. -/
+
+/-- the damping `k = 2 − 1.9·clamp(resonance, 0, 1)` of a filter at rest -/
+noncomputable def Filter.kRest (s : Filter ℝ) : ℝ :=
+  2 - 19 / 10 * clamp s.resonance.raw (0.0 : ℝ) (1.0 : ℝ)
+
+theorem Filter.kRest_pos (s : Filter ℝ) : 0 < s.kRest := by
+  have := (clamp01_mem s.resonance.raw).2
+  unfold Filter.kRest; linarith
+
+/-- the state part of the model's tick is `svfStep` at the model's own `g` and `k` -/
+theorem Filter.tickV_state (s : Filter ℝ) (dt : ℝ) (v : Frame ℝ × Frame ℝ) (f : Frame ℝ) :
+    (Filter.tickV s dt v f).1 = svfStep (Filter.g s.cutoff.raw dt) s.kRest v f := by
+  simp only [Filter.tickV, Filter.tick, Filter.coefs_real, svfStep, Filter.kRest]
+
+/-- **zero-input energy decay, one tick**: with `g > 0` (true below Nyquist, `C13_filter_defined`;
+    `k ≥ 0.1` always) a silent input frame lowers the integrator energy `ic1eq² + ic2eq²` (both
+    channels) by exactly `4·g·k·|v1|²`; so it never grows, and it drops strictly unless
+    `ic1eq = g·ic2eq` in both channels (the line on which the band-pass tap is 0). -/
+theorem C13_svf_zero_input_energy_decay (s : Filter ℝ) (dt : ℝ) (hg : 0 < Filter.g s.cutoff.raw dt)
+    (v : Frame ℝ × Frame ℝ) :
+    svfEnergy (Filter.tickV s dt v 0).1
+        = svfEnergy v - 4 * Filter.g s.cutoff.raw dt * s.kRest
+            * frameSq (svfV1 (Filter.g s.cutoff.raw dt) s.kRest v 0)
+      ∧ svfEnergy (Filter.tickV s dt v 0).1 ≤ svfEnergy v
+      ∧ (¬ (v.1.left = Filter.g s.cutoff.raw dt * v.2.left ∧ v.1.right = Filter.g s.cutoff.raw dt * v.2.right)
+          → svfEnergy (Filter.tickV s dt v 0).1 < svfEnergy v) := by
+  have hk := s.kRest_pos
+  rw [Filter.tickV_state, svfStep_energy_zero _ _ hg hk]
+  have hnn := frameSq_nonneg (svfV1 (Filter.g s.cutoff.raw dt) s.kRest v 0)
+  have hgk : 0 < 4 * Filter.g s.cutoff.raw dt * s.kRest := by positivity
+  refine ⟨rfl, by nlinarith, fun hne => ?_⟩
+  have hpos : 0 < frameSq (svfV1 (Filter.g s.cutoff.raw dt) s.kRest v 0) := by
+    rcases lt_or_eq_of_le hnn with h | h
+    · exact h
+    · exact absurd ((svfV1_zero_eq_zero_iff _ _ hg hk v).1 h.symm) hne
+  nlinarith
+
+/-- **zero-input boundedness for ever**: from any integrator state, after any number of silent
+    frames the integrator energy is at most the initial one — hence each of the four integrator
+    numbers stays within `√(initial energy)` for ever (stated with squares). -/
+theorem C13_svf_zero_input_bounded (s : Filter ℝ) (dt : ℝ) (hg : 0 < Filter.g s.cutoff.raw dt)
+    (v : Frame ℝ × Frame ℝ) (n : ℕ) :
+    let w := (runTick (Filter.tickV s dt) v (silence n)).1
+    svfEnergy w ≤ svfEnergy v
+      ∧ w.1.left ^ 2 ≤ svfEnergy v ∧ w.2.left ^ 2 ≤ svfEnergy v
+      ∧ w.1.right ^ 2 ≤ svfEnergy v ∧ w.2.right ^ 2 ≤ svfEnergy v := by
+  intro w
+  have hE : svfEnergy w ≤ svfEnergy v :=
+    runTick_silence_energy_le (Filter.tickV s dt) svfEnergy
+      (fun u => (C13_svf_zero_input_energy_decay s dt hg u).2.1) n v
+  have hc := svfEnergy_components w
+  exact ⟨hE, le_trans hc.1 hE, le_trans hc.2.1 hE, le_trans hc.2.2.1 hE, le_trans hc.2.2.2 hE⟩
+
+/-- the same through `process` itself: a filter at rest fed `n` silent frames (in one call; by
+    `C13_filter_chunk_free` in any slicing) ends with integrator energy at most the initial one. -/
+theorem C13_svf_zero_input_process_bounded (s : Filter ℝ) (h : s.Stagnant) (dt : ℝ) (info : Info ℝ)
+    (hg : 0 < Filter.g s.cutoff.raw dt) (n : ℕ) :
+    svfEnergy (Filter.ic (s.process (silence n) dt info).1) ≤ svfEnergy (Filter.ic s) := by
+  rw [Filter.process_stagnant s h]
+  exact (C13_svf_zero_input_bounded s dt hg (s.ic1eq, s.ic2eq) n).1
+
+/-- full statement aimed at (bounded input, bounded state): if every input frame has
+    `frameSq x ≤ B²` then for every run the integrator energy stays ≤ `C(g,k)·B² + initial energy`
+    with `C` independent of the run length.  Proved here: the one-tick bound
+    `E' ≤ E + (g/k)·|x|²` for every input, and its sum over a run — growth of the energy at most
+    linear in the number of frames (state norm at most like √n), never exponential.
+    Missing for the full statement: a strict contraction factor of the zero-input map in a
+    weighted norm (the plain energy is only non-increasing: it is preserved on `ic1eq = g·ic2eq`). -/
+theorem C13_svf_bounded_input_partial (s : Filter ℝ) (dt : ℝ) (hg : 0 < Filter.g s.cutoff.raw dt)
+    (v : Frame ℝ × Frame ℝ) (xs : List (Frame ℝ)) (B2 : ℝ) (hB : ∀ x ∈ xs, frameSq x ≤ B2) :
+    (∀ u x, svfEnergy (Filter.tickV s dt u x).1
+        ≤ svfEnergy u + Filter.g s.cutoff.raw dt / s.kRest * frameSq x)
+      ∧ svfEnergy (runTick (Filter.tickV s dt) v xs).1
+        ≤ svfEnergy v + Filter.g s.cutoff.raw dt / s.kRest * (xs.length * B2) := by
+  have hk := s.kRest_pos
+  have hstep : ∀ u x, svfEnergy (Filter.tickV s dt u x).1
+      ≤ svfEnergy u + Filter.g s.cutoff.raw dt / s.kRest * frameSq x := by
+    intro u x
+    rw [Filter.tickV_state]
+    exact svfStep_energy_le _ _ hg hk u x
+  refine ⟨hstep, ?_⟩
+  have h1 := runTick_energy_le (Filter.tickV s dt) svfEnergy _ hstep xs v
+  have h2 := sum_frameSq_le xs B2 hB
+  have hc : 0 ≤ Filter.g s.cutoff.raw dt / s.kRest := by positivity
+  nlinarith
+
+/-- non-vacuity: a 1 kHz filter at 48 kHz with resonance 0.5 has `g > 0`, is at rest, and the
+    bounded-input premise is met by a concrete signal -/
+example : 0 < Filter.g (Filter.new .lowPass (.fixed 1000) (.fixed 0.5) (.fixed 1) : Filter ℝ).cutoff.raw (1 / 48000) :=
+  (C13_filter_defined 1000 0.5 1 (1 / 48000) (by norm_num) (by norm_num)).1
+example : ∀ x ∈ [(⟨1, -1⟩ : Frame ℝ), ⟨0, 1⟩], frameSq x ≤ 2 := by
+  intro x hx
+  simp only [List.mem_cons, List.not_mem_nil, or_false] at hx
+  rcases hx with rfl | rfl <;> (unfold frameSq; norm_num)
+/-- the strictness premise of the decay theorem is satisfiable -/
+example : ¬ (((⟨1, 0⟩, ⟨0, 0⟩) : Frame ℝ × Frame ℝ).1.left = (1 / 2 : ℝ) * ((⟨1, 0⟩, ⟨0, 0⟩) : Frame ℝ × Frame ℝ).2.left
+    ∧ ((⟨1, 0⟩, ⟨0, 0⟩) : Frame ℝ × Frame ℝ).1.right = (1 / 2 : ℝ) * ((⟨1, 0⟩, ⟨0, 0⟩) : Frame ℝ × Frame ℝ).2.right) := by
+  norm_num
 
 end K
